@@ -67,3 +67,9 @@ pub fn outlined_parse_u32_lossy(data: &Vec<u8>) -> (r: Option<u32>)
 pub fn outlined_str_bytes_len(s: &String) -> (r: usize)
     ensures r == utf8(s@).len()
 { unimplemented!() }
+
+/// hev1.rs `u8::from(flag)` -- ASSUMED (core's `impl From<bool> for u8`): false -> 0, true -> 1
+#[verifier::external_body]
+pub fn outlined_u8_from_bool(b: bool) -> (r: u8)
+    ensures r == (if b { 1u8 } else { 0u8 }),
+{ unimplemented!() }
